@@ -37,6 +37,7 @@ type obRec struct {
 	Instances int            `json:"path_instances"`
 	Solvers   map[string]int `json:"solvers"`
 	Time      float64        `json:"solver_time_s"`
+	MaxTime   float64        `json:"slowest_instance_s"`
 	Note      string         `json:"note,omitempty"`
 }
 
@@ -67,7 +68,7 @@ func cmdCheck(args []string) {
 	if v := os.Getenv("VERIF_SEED"); v != "" {
 		seed, _ = strconv.Atoi(v)
 	}
-	tmo := 10 * time.Second
+	tmo := 20 * time.Second
 	if *tier == "thorough" {
 		tmo = 60 * time.Second
 	}
@@ -331,6 +332,11 @@ func cmdCheck(args []string) {
 		var ds []string
 		for _, n := range names {
 			if n.Status == "discharged" {
+				// admission rule: only obligations that discharge with a wide margin under the quick timeout are claimed
+				if n.MaxTime > 3.0 {
+					fmt.Printf("ledger: NOT admitted (slowest instance %.1fs, limit 3.0s): %s\n", n.MaxTime, n.Name)
+					continue
+				}
 				ds = append(ds, n.Name)
 			}
 		}
@@ -412,7 +418,7 @@ func cmdCheck(args []string) {
 	}
 
 	for _, n := range names {
-		rec := obRec{Name: n.Name, Kind: n.Kind, Func: n.Func, Status: n.Status, Instances: n.Instances, Solvers: n.Solvers, Time: n.Time}
+		rec := obRec{Name: n.Name, Kind: n.Kind, Func: n.Func, Status: n.Status, Instances: n.Instances, Solvers: n.Solvers, Time: n.Time, MaxTime: n.MaxTime}
 		kfs := kfBy[n.Name]
 		switch {
 		case n.Status == "discharged":
